@@ -54,7 +54,7 @@ theorem cstep_decRemote {c c' : Counts} (h : c.decNumRemoteResetStreams = some c
   · cases h; exact ⟨rfl, rfl, rfl, rfl, rfl, rfl, rfl, rfl, .inl rfl, .inl (Nat.sub_le _ _)⟩
   · cases h
 
-macro_rules | `(tactic| ev_side) => `(tactic| (intro st hst; rw [← stream_of_get? hst]; state_tac))
+macro_rules | `(tactic| ev_side) => `(tactic| (intro st hst; rw [stream_of_get? hst] at *; state_tac))
 macro_rules | `(tactic| ev_side) => `(tactic| exact cstep_releaseDataFrame _ _)
 macro_rules | `(tactic| ev_side) => `(tactic| exact cstep_recordDataFrame _ _)
 macro_rules | `(tactic| ev_side) => `(tactic| exact cstep_applyRemoteSettings _ _ _)
